@@ -299,12 +299,13 @@ func Worker(shard, n int, tier string) *engine.Result {
 	{
 		sub := engine.NewResult(Prop)
 		c05.SdWorker(f, sub, tier, shard, n)
+		c05.CreateWorker(f, sub, tier, shard, n)
 		res.Transitions += sub.Transitions
 		res.Evaluations += sub.Evaluations
 		res.Counters["selfdestruct_family_programs"] += int64(sub.Transitions)
 		for _, v := range sub.Violations {
 			if strings.HasSuffix(v.Signature, "leak=supply") {
-				res.AddViolation(engine.Violation{Signature: "C02|method=none|control|effect=selfdestruct-family-supply", What: "a transaction with reverted / repeated self-destructs changed the supply by something else than what the destroyed contract still held",
+				res.AddViolation(engine.Violation{Signature: "C02|method=none|control|effect=" + map[bool]string{true: "create-family-supply", false: "selfdestruct-family-supply"}[strings.Contains(v.Signature, "create-family")], What: "a transaction with self-destructs / CREATE2 onto funded addresses changed the supply by something else than what a destroyed contract still held",
 					Path: v.Path, Detail: v.Detail})
 			}
 		}
